@@ -11,7 +11,7 @@ use std::{
 };
 
 use codemap::{CodeMap, Span, Spanned};
-use indexmap::IndexSet;
+use indexmap::{IndexMap, IndexSet};
 
 use crate::{
     ast::*,
@@ -2158,7 +2158,7 @@ impl<'a> Visitor<'a> {
             positional.push(self.without_slash(val));
         }
 
-        let mut named = BTreeMap::new();
+        let mut named = IndexMap::new();
 
         for (key, expr) in arguments.named {
             let val = self.visit_expr(expr)?;
@@ -2243,7 +2243,7 @@ impl<'a> Visitor<'a> {
 
     fn add_rest_map(
         &mut self,
-        named: &mut BTreeMap<Identifier, Value>,
+        named: &mut IndexMap<Identifier, Value>,
         rest: SassMap,
     ) -> SassResult<()> {
         for (key, val) in rest {
@@ -2316,7 +2316,7 @@ impl<'a> Visitor<'a> {
 
                 for argument in additional_declared_args {
                     let name = argument.name;
-                    let value = evaluated.named.remove(&argument.name).map_or_else(
+                    let value = evaluated.named.shift_remove(&argument.name).map_or_else(
                         || {
                             // todo: superfluous clone
                             let v = visitor.visit_expr(argument.default.clone().unwrap())?;
@@ -2745,19 +2745,19 @@ impl<'a> Visitor<'a> {
         let mut named = if_expr.0.named;
 
         let condition = if positional.is_empty() {
-            named.remove(&Identifier::from("condition")).unwrap()
+            named.shift_remove(&Identifier::from("condition")).unwrap()
         } else {
             positional.remove(0)
         };
 
         let if_true = if positional.is_empty() {
-            named.remove(&Identifier::from("if_true")).unwrap()
+            named.shift_remove(&Identifier::from("if_true")).unwrap()
         } else {
             positional.remove(0)
         };
 
         let if_false = if positional.is_empty() {
-            named.remove(&Identifier::from("if_false")).unwrap()
+            named.shift_remove(&Identifier::from("if_false")).unwrap()
         } else {
             positional.remove(0)
         };
